@@ -542,6 +542,9 @@ InvC08Outside == s.pc = "done" => C08_OutsidePlanUntouched(s.plan, s.before, s.d
 \* C03 on the filesystem: what was on disk and is not described by the plan's Old trees
 \* (newcomers, FIFOs, unknown children) is still there
 InvC03 == s.pc = "done" => C03_UntrackedOnDiskUntouched(s.plan, s.before, s.disk)
+\* C18 on the filesystem: executable bits of files survive a transition under any fault
+InvC18 == s.pc = "done" => /\ C18_ExecBitOnDiskSurvives(s.plan, s.before, s.disk, s.results)
+                           /\ (s.edited = {} => C18_ReportedExecMatchesDisk(s.plan, s.results, s.disk))
 \* sanity of the machine itself
 InvShape == /\ s.i \in 1..(Len(s.plan) + 1) /\ Len(s.results) = s.i - 1
             /\ (s.pc = "done" => s.stk = <<>> /\ s.i = Len(s.plan) + 1)
